@@ -6,11 +6,11 @@ def serdeSchema : List (String × List (String × String × List String)) := [
   ("SampleGenerator", [("loop_signature", "Vec<Vec<isize>>", []), ("table", "TropicalSubgraphTable", [])]),
   ("TropicalSubgraphTable", [("table", "Vec<TropicalSubgraphTableEntry>", []), ("dimension", "usize", []), ("tropical_graph", "TropicalGraph", []), ("cached_factor", "f64", [])]),
   ("TropicalSubgraphTableEntry", [("loop_number", "u8", []), ("mass_momentum_spanning", "bool", []), ("j_function", "f64", []), ("generalized_dod", "f64", [])]),
-  ("TropicalGraph", [("dod", "f64", []), ("topology", "Vec<TropicalEdge>", []), ("num_massive_edges", "usize", []), ("external_vertices", "Vec<u8>", ["#[serde(default, skip_serializing_if = \"Vec::is_empty\")]"]), ("num_loops", "usize", [])]),
+  ("TropicalGraph", [("dod", "f64", []), ("topology", "Vec<TropicalEdge>", []), ("num_massive_edges", "usize", []), ("external_vertices", "Vec<u8>", []), ("num_loops", "usize", [])]),
   ("TropicalEdge", [("edge_id", "u8", []), ("left", "u8", []), ("right", "u8", []), ("weight", "f64", []), ("is_massive", "bool", [])])]
 
 /-- struct-level serde attributes, manual Serialize/Deserialize impls and any other serde attribute in the crate -/
-def serdeCustomisations : List String := ["preprocessing.rs: serde attribute (default, skip_serializing_if = \"Vec::is_empty\")"]
+def serdeCustomisations : List String := []
 
 /-- structs deriving both Serialize and Deserialize -/
 def serdeBoth : List String := ["SampleGenerator", "TropicalSubgraphTable", "TropicalSubgraphTableEntry", "TropicalGraph", "TropicalEdge"]
